@@ -87,7 +87,7 @@ CONSTANTS Fams,      \* subset of {"nil", "con"}
           Seeds,     \* seeds of the instance generator
           Algs,      \* subset of {"J", "GS", "CJ", "CGS"}
           Ws,        \* relaxation factors as w / 2: subset of {1, 2, 3}
-          Tols,      \* tolerance exponents t (tolerance = 2^-t); -1 stands for tolerance 0
+          Tols,      \* tolerance exponents t (tolerance = 2^-t); 99 stands for tolerance 0 (cfg.t = -1)
           MaxIts,    \* values of max_mda_iter
           Scals,     \* subset of {"no", "init", "ncpl", "sub", "comp"}
           Warm,      \* subset of BOOLEAN
@@ -412,7 +412,8 @@ Start(I, C, b) ==
 
 Init ==
   \E I \in Instances : LET b == TLCEval(ExAux(I)) IN
-    \E C \in [alg : Algs, w : Ws, ord : Perms(ND(I)), t : Tols, maxit : MaxIts, scal : Scals,
+    \E C \in [alg : Algs, w : Ws, ord : Perms(ND(I)), t : {IF x = 99 THEN -1 ELSE x : x \in Tols},
+              maxit : MaxIts, scal : Scals,
               warm : Warm, runs : {NRuns}] :
        /\ (~C.warm \/ NRuns = 2)
        /\ ValidCfg(I, C)
